@@ -153,3 +153,38 @@ def obligations_lower(prefix):
     obs.append(Ob(prefix + '-lower-selftest', 'MIR parser+lower reproduces the native AST summary on corpus programs', ob_lower_selftest, ('quick',), 5, dict(nfiles=8)))
     obs.append(Ob(prefix + '-lower-selftest-all', 'MIR parser+lower reproduces the native AST summary on all small corpus programs', ob_lower_selftest, ('thorough',), 50, dict(nfiles=60)))
     return obs
+
+# ----------------------------------------------------------------------------- O4.9 number texts of any magnitude in the positions that lowering parses (array length, tuple index) never panic
+NUM_TEXTS = ('0', '2', '007', '4294967295', '4294967296', '18446744073709551615', '18446744073709551616', '99999999999999999999', '340282366920938463463374607431768211456')
+def ob_lower_number_texts(r, tier, seed):
+    lw = LW()
+    r.bounds = 'the programs `fn f(x: [int32; N]) { }` and `fn f() { t.N }` with the integer token N each of %s (solver decision); real parser, real tree builder, real ast::lower' % list(NUM_TEXTS)
+    r.assumptions = ['rowan red tree modelled on the recorder output of the real build_tree (validated by O4.4-lower-selftest)', 'oracle: lowering returns (with a diagnostic when the number does not fit); it never panics']
+    def entry(ex):
+        pos = ex.choose([(True, 'array-length'), (True, 'tuple-index')]); n = ex.choose([(True, t) for t in NUM_TEXTS]); ex.notes['w'] = (pos, n)
+        if pos == 'array-length':
+            full = [('FnKeyword', 'fn'), ('Ident', 'f'), ('LParen', '('), ('Ident', 'x'), ('Colon', ':'), ('LBracket', '['), ('Int32Keyword', 'int32'), ('Semi', ';'), ('Int', n), ('RBracket', ']'), ('RParen', ')'), ('LBrace', '{'), ('RBrace', '}')]
+        else:
+            full = [('FnKeyword', 'fn'), ('Ident', 'f'), ('LParen', '('), ('RParen', ')'), ('LBrace', '{'), ('Ident', 't'), ('Dot', '.'), ('Int', n), ('RBrace', '}')]
+        lr, root, pd = run_lower(lw, ex, [k for k, _ in full], [t for _, t in full])
+        has, nd, items, ditems = lower_summary(lw, ex, lr)
+        return pos, n, has, nd
+    res = e2.explore(r, lw.W, entry, [])
+    for p in res:
+        r.cases += 1
+        if p.kind != 'ok':
+            pos, n = (p.notes or {}).get('w') or ('?', '?')
+            if any(f.key == 'panic:' + pos for f in r.findings): continue
+            src = ('fn f(x: [int32; %s]) { }\n' % n) if pos == 'array-length' else ('fn f() { t.%s }\n' % n)
+            import json as _j
+            try:
+                rc, out, errt = build.run_driver('vreplay', _j.dumps({'fn': 'lower_text', 'args': [src]}) + '\n', timeout=60)
+                ok_ = 'panicked' in (out + errt) or rc != 0; detail = 'native parser + ast::lower on `%s`: %s' % (src.strip(), (errt or out)[-200:].replace('\n', ' '))
+            except Exception as e_: ok_, detail = False, 'native replay failed: %s' % str(e_)[:160]
+            r.findings.append(Finding('panic:' + pos, 'lowering `%s` panics: %s' % (src.strip(), p.value[:160]), {'position': pos, 'number': n}, ok_, detail))
+            continue
+        r.nontrivial += 1
+        if len(r.samples) < 3: r.samples.append({'position': p.value[0], 'number': p.value[1], 'diagnostics': p.value[3]})
+
+def obligations_numbers():
+    return [Ob('O4.9-lower-number-texts', 'array lengths and tuple indices of any magnitude never panic in lowering', ob_lower_number_texts, ('quick', 'thorough'), 3, {})]
